@@ -16,13 +16,14 @@ VARIABLES pos, rel, mach, xf, ev, prv
 vars == <<pos, rel, mach, xf, ev, prv>>
 view == <<pos, rel, [mach EXCEPT !.slack = [a \in AxisSet |-> 0]], xf>>
 
-MM == [exact |-> TRUE, xf |-> TRUE]
+SC == 10000
+MM == [exact |-> TRUE, xf |-> TRUE, SC |-> SC]
 Q(v)  == [k |-> "n", v |-> v]
 NoQ   == [k |-> "none", v |-> 0]
 AxSeq == <<"X", "Y", "Z">>
 W(l, v) == [l |-> l, v |-> v]
 
-Img(m, pt) == [i \in 1..3 |-> ImgS(m, pt, i) \div SC]     \* exact on the integer sub-group
+Img(m, pt) == [i \in 1..3 |-> ImgS(MM, m, pt, i) \div SC]     \* exact on the integer sub-group
 AxArgs(S) == { ax \in [1..3 -> {NoQ} \cup {Q(c) : c \in S}] : \A i \in 1..3 : (i \notin AxUsed => ax[i] = NoQ) }
 Rep == [pos |-> pos, rel |-> rel]
 
